@@ -62,9 +62,12 @@ def rng(tag=''):
 
 _BUILD_INPUTS = ('build.py', 'pyproject.toml')
 _live_dirs = []
+_MAIN_PID = os.getpid()
 
 
 def _cleanup():
+    if os.getpid() != _MAIN_PID:
+        return  # a forked child (e.g. a multiprocessing pool worker) must never remove the parent's scratch
     for d in _live_dirs:
         shutil.rmtree(d, ignore_errors=True)
 
